@@ -160,6 +160,80 @@ def check_lemma(case):
     return OK(licensed > 0, "licensed" if licensed else "nothing_licensed")
 
 
+def _with_points(p, pts):
+    """permutation obtained from p by adding points; each point = (cell x, cell y, dx, dy) with
+    small offsets dx, dy in (0, 1) placing it inside the cell (x, y)"""
+    coords = [(float(i), float(v)) for i, v in enumerate(p)]
+    for x, y, dx, dy in pts:
+        coords.append((x - 1 + dx, y - 1 + dy))
+    order = sorted(range(len(coords)), key=lambda i: coords[i][0])
+    yrank = {i: r for r, i in enumerate(sorted(range(len(coords)), key=lambda i: coords[i][1]))}
+    return tuple(yrank[i] for i in order)
+
+
+def _witnesses(p, cells, sh=frozenset()):
+    """candidate refutations of a licensed shading: the pattern's own permutation with one or
+    two extra points - at least one inside a licensed cell, the other in a licensed cell or in
+    another unshaded cell sharing (or next to) a row or column with one (the lemma's side
+    conditions speak about exactly those lines)"""
+    cells = list(cells)
+    k = len(p)
+    out = []
+    near = []
+    for x in range(k + 1):
+        for y in range(k + 1):
+            if (x, y) in sh or (x, y) in cells:
+                continue
+            if any(abs(x - c[0]) <= 1 or abs(y - c[1]) <= 1 for c in cells):
+                near.append((x, y))
+    near = near[:14]
+    for c in cells:
+        out.append(_with_points(p, [(c[0], c[1], 0.5, 0.5)]))
+        out.append(_with_points(p, [(c[0], c[1], 0.3, 0.3), (c[0], c[1], 0.6, 0.6)]))
+        out.append(_with_points(p, [(c[0], c[1], 0.3, 0.6), (c[0], c[1], 0.6, 0.3)]))
+        for d in near:
+            for da, db in ((0.3, 0.6), (0.6, 0.3)):
+                out.append(_with_points(p, [(c[0], c[1], da, da), (d[0], d[1], db, db)]))
+                out.append(_with_points(p, [(c[0], c[1], da, db), (d[0], d[1], db, da)]))
+    if len(cells) == 2:
+        a, b = cells
+        for da, db in ((0.3, 0.6), (0.6, 0.3)):
+            out.append(_with_points(p, [(a[0], a[1], da, da), (b[0], b[1], db, db)]))
+            out.append(_with_points(p, [(a[0], a[1], da, db), (b[0], b[1], db, da)]))
+    return out
+
+
+def check_lemma_large(case):
+    """Patterns of 5-9 points (dense shadings reach more than 64 shaded boxes): the full
+    container comparison is out of reach, so every licensed shading is attacked with a bounded
+    family of witnesses - the pattern's permutation plus one or two points inside the licensed
+    cells.  A witness containing the pattern but not the shaded pattern refutes the verdict."""
+    p, sh = tuple(case["M"][0]), frozenset(tuple(c) for c in case["M"][1])
+    k = len(p)
+    M = MeshPatt(Perm(p), sh)
+    licensed = 0
+    table = dict(M.shadable_boxes())
+    claims = set()
+    for entries in table.values():
+        for boxes in entries:
+            claims.add(tuple(boxes))
+    for x in range(k + 1):
+        for y in range(k + 1):
+            if M.can_shade((x, y)):
+                claims.add(((x, y),))
+            for c2 in ((x + 1, y), (x, y + 1)):
+                if c2[0] <= k and c2[1] <= k:
+                    if M.can_simul_shade((x, y), c2) or M.can_simul_shade(c2, (x, y)):
+                        claims.add(((x, y), c2))
+    for boxes in sorted(claims):
+        licensed += 1
+        new_sh = sh | set(boxes)
+        for t in _witnesses(p, boxes, sh):
+            if ref.mesh_contains(t, p, sh) and not ref.mesh_contains(t, p, new_sh):
+                return BAD("licensed_shading_refuted_large", {"boxes": list(boxes), "witness": list(t)})
+    return OK(licensed > 0, f"large_len{k}" + ("_dense" if len(sh) > 64 else ""))
+
+
 def _occ_with_points_in_cell(p, sh, t, cell):
     """for each reference occurrence: list of points of t lying in `cell` of its grid"""
     res = []
@@ -221,7 +295,7 @@ def check_plot(case):
     return OK(bool(sh) and len(p) >= 1, "plot")
 
 
-CHECKS = {"lemma": check_lemma, "add_point": check_add_point, "plot": check_plot}
+CHECKS = {"lemma": check_lemma, "add_point": check_add_point, "plot": check_plot, "lemma_large": check_lemma_large}
 
 
 def _all_mesh(k):
@@ -268,7 +342,27 @@ def add_point_cases(draw):
     return {"M": M, "cell": list(cell), "extra": 2}
 
 
+@st.composite
+def large_mesh_cases(draw):
+    n = draw(st.integers(5, 9))
+    p = list(draw(gen.perm_of(n)))
+    cells = [(x, y) for x in range(n + 1) for y in range(n + 1)]
+    mode = draw(st.sampled_from(["almost_full", "almost_full", "dense", "sparse"]))
+    if mode == "almost_full":
+        # everything shaded except a few cells around one point: many boxes, few licensed shadings
+        i = draw(st.integers(0, n - 1))
+        hole = {(i + dx, p[i] + dy) for dx in (0, 1) for dy in (0, 1)}
+        hole |= set(draw(st.lists(st.sampled_from(cells), max_size=3)))
+        sh = [c for c in cells if c not in hole]
+    elif mode == "dense":
+        sh = [c for c in cells if draw(st.integers(0, 9)) != 0]
+    else:
+        sh = draw(st.lists(st.sampled_from(cells), max_size=6, unique=True))
+    return {"M": [p, sorted(list(c) for c in sh)]}
+
+
 def shard_generated(acc, shard, nshards, n_lemma, n_add, n_plot, extra):
+    engine.hyp_run(acc, "lemma_large", check_lemma_large, large_mesh_cases(), n_lemma, shard)
     engine.hyp_run(acc, "lemma", check_lemma, mesh_cases(3, 4).map(lambda M: {"M": M, "extra": extra if len(M[0]) < 4 else 2}), n_lemma, shard)
     engine.hyp_run(acc, "add_point", check_add_point, add_point_cases(), n_add, shard)
     engine.hyp_run(acc, "plot", check_plot, gen.mesh_patterns(0, 5).map(lambda M: {"M": M}), n_plot, shard)
